@@ -11,7 +11,7 @@
             V <step> dfree   ... free event for an address that is not registered live
    The audit never dereferences an address that is not a registered live object.
 
-   usage: heap_trace file.nvm [max_steps]          trace on stdout, program output discarded (or NANO_TRACE_OUT=1: stderr)
+   usage: heap_trace file.nvm|file.asm [max_steps]          trace on stdout, program output discarded (or NANO_TRACE_OUT=1: stderr)
    Line protocol (consumed by tools/props/c14.py, which feeds the I lines to the extracted Coq model):
      I <step> <ip> <opcode-hex> <name> <nops> <operand>... | p <v0> <v1> <v2> | k <key> | c <arity> <locals> <isclos>
          v = i<int64> | r<ord> | n          three topmost stack values BEFORE the instruction (v0 = top)
@@ -29,6 +29,7 @@
 #include "isa.h"
 #include "nvm_format.h"
 #include "verifier.h"
+#include "assembler.h"
 #include "vm.h"
 #include "heap.h"
 #include "vm_ffi.h"
@@ -154,7 +155,7 @@ static void emit_state(VmState *vm) {
     if (live_count > sorted_cap) { sorted_cap = live_count * 2 + 16; sorted = realloc(sorted, sorted_cap * sizeof(Ent *)); }
     size_t n = 0;
     for (size_t i = 0; i < tab_cap; i++) if (tab[i].state == 1) sorted[n++] = &tab[i];
-    qsort(sorted, n, sizeof(Ent *), cmp_ent);
+    if (n > 1) qsort(sorted, n, sizeof(Ent *), cmp_ent);
     fprintf(T, "S %ld %u %u", cur_step, vm->stack_size, vm->frame_count);
     for (size_t i = 0; i < n; i++)
         fprintf(T, " %u:%u:%u:%u", sorted[i]->ord, sorted[i]->type, ((VmHeapHeader *)sorted[i]->p)->ref_count, sorted[i]->indeg);
@@ -246,14 +247,23 @@ int main(int argc, char **argv) {
     if (argc > 2) max_steps = atol(argv[2]);
     T = stdout;
     static char obuf[1 << 16]; setvbuf(T, obuf, _IOFBF, sizeof obuf);
-    FILE *f = fopen(argv[1], "rb");
-    if (!f) { perror(argv[1]); return 2; }
-    fseek(f, 0, SEEK_END); long sz = ftell(f); fseek(f, 0, SEEK_SET);
-    uint8_t *data = malloc(sz > 0 ? (size_t)sz : 1);
-    if (fread(data, 1, (size_t)sz, f) != (size_t)sz) { fprintf(stderr, "short read\n"); return 2; }
-    fclose(f);
-    NvmModule *m = nvm_deserialize(data, (uint32_t)sz);
-    free(data);
+    NvmModule *m = NULL;
+    size_t al = strlen(argv[1]);
+    if (al > 4 && strcmp(argv[1] + al - 4, ".asm") == 0) {
+        /* textual NanoISA assembly (hand-made / generated bytecode the compiler never emits) */
+        AsmResult ar; memset(&ar, 0, sizeof ar);
+        m = asm_assemble_file(argv[1], &ar);
+        if (!m) fprintf(stderr, "asm error line %u: %s\n", ar.line, ar.message);
+    } else {
+        FILE *f = fopen(argv[1], "rb");
+        if (!f) { perror(argv[1]); return 2; }
+        fseek(f, 0, SEEK_END); long sz = ftell(f); fseek(f, 0, SEEK_SET);
+        uint8_t *data = malloc(sz > 0 ? (size_t)sz : 1);
+        if (fread(data, 1, (size_t)sz, f) != (size_t)sz) { fprintf(stderr, "short read\n"); return 2; }
+        fclose(f);
+        m = nvm_deserialize(data, (uint32_t)sz);
+        free(data);
+    }
     if (!m) { fprintf(T, "E -1 0 0 0 load-failed\n"); fflush(T); return 3; }
     NvmVerifyResult vr = nvm_verify(m);
     if (!vr.ok) { fprintf(T, "E -2 0 0 0 verify-failed %s\n", vr.error_msg); fflush(T); nvm_module_free(m); return 3; }
